@@ -42,6 +42,8 @@ OPS = [
     ("new Function c=9", None, "new Function('c = 9')();", "value", {"c": 9}),
     ("keep regex", None, "var re = /a+$/;", "value", {"re": 1}),
     ("use kept regex", None, "typeof re === 'object' ? re.test('" + LONG + "') : 'nore'", "regex", {}),
+    # 244 matcher steps = two deadline polls, well inside every limit: must give its value whatever happened in earlier evals
+    ("use kept regex briefly", None, "typeof re === 'object' ? re.test('aaaaaaaaaab') : 'nore'", "value", {}),
     ("set a=11", None, ("set", "a", 11), "value", {"a": 11}),
     ("a=12, loop forever inside try", "time", "a = 12; try { while (true) { } } catch (e) { a = -1 } finally { a = -2 }", "time", {"a": 12}),
     ("a=13, recurse forever inside try", "limit", "a = 13; try { (function r() { return 1 + r() })() } catch (e) { a = -1 }", "limit", {"a": 13}),
